@@ -86,6 +86,8 @@ enum WorkerEnd {
     Done,
     /// worker died (signal / watchdog) while executing this index
     Died { index: u64, how: String },
+    /// worker died while minimising violation found at this index (record is unminimised)
+    DiedMinimising { index: u64, record: Value },
     HarnessError(String),
 }
 
@@ -117,6 +119,7 @@ fn spawn_worker(
         .arg(count.to_string())
         .arg(deadline_secs.to_string())
         .arg(avoid.join(","))
+        .env("RUST_BACKTRACE", "0")
         .stdin(Stdio::null())
         .stdout(Stdio::piped())
         .stderr(Stdio::piped());
@@ -136,6 +139,7 @@ fn collect_worker(mut child: std::process::Child) -> WorkerOut {
     let mut violations = Vec::new();
     let mut harness_error = None;
     let mut hang = None;
+    let mut minimising: Option<Value> = None;
     for line in BufReader::new(stdout).split(b'\n') {
         let Ok(line) = line else { break };
         if line.len() < 2 {
@@ -149,7 +153,11 @@ fn collect_worker(mut child: std::process::Child) -> WorkerOut {
             b'h' => {
                 hang = std::str::from_utf8(body).ok().and_then(|s| s.trim().parse::<u64>().ok());
             }
+            b'u' => {
+                minimising = serde_json::from_slice::<Value>(body).ok();
+            }
             b'v' => {
+                minimising = None;
                 if let Ok(v) = serde_json::from_slice::<Value>(body) {
                     violations.push(v);
                 }
@@ -174,6 +182,8 @@ fn collect_worker(mut child: std::process::Child) -> WorkerOut {
         }
     } else if status.success() && summary.is_some() {
         WorkerEnd::Done
+    } else if let (Some(record), Some(index)) = (minimising, last_index) {
+        WorkerEnd::DiedMinimising { index, record }
     } else if let Some(index) = last_index {
         let how = match status.signal() {
             Some(sig) => format!("signal {}", sig),
@@ -251,6 +261,7 @@ pub fn exec_child(world: &World, prop: &str, tier: Tier, avoid: &[String], tape:
         .arg(prop)
         .arg(tier.name())
         .arg(avoid.join(","))
+        .env("RUST_BACKTRACE", "0")
         .stdin(Stdio::piped())
         .stdout(Stdio::piped())
         .stderr(Stdio::piped());
@@ -334,6 +345,7 @@ fn exec_index_child(world: &World, args: &CheckArgs, avoid: &[String], index: u6
         .arg(avoid.join(","))
         .arg(args.seed.to_string())
         .arg(index.to_string())
+        .env("RUST_BACKTRACE", "0")
         .stdin(Stdio::null())
         .stdout(Stdio::piped())
         .stderr(Stdio::piped());
@@ -560,6 +572,33 @@ pub fn check_main(worlds: &[World], args: CheckArgs) -> i32 {
                 WorkerEnd::HarnessError(msg) => {
                     eprintln!("[simctl] HARNESS ERROR: {msg}");
                     return 2;
+                }
+                WorkerEnd::DiedMinimising { index, record } => {
+                    // minimise through child processes instead
+                    let tape = tape_of(&record["tape"]);
+                    let avoid_rec: Vec<String> = record["avoid"].as_array().map(|a| a.iter().filter_map(|x| x.as_str().map(String::from)).collect()).unwrap_or_default();
+                    let class = Violation::from_json(&record["violation"]).map(|v| format!("{}|{}", v.property, v.kind)).unwrap_or_default();
+                    let (min_tape, spent) = minimise(&tape, 400, |cand| {
+                        matches!(exec_child(world, &args.prop, args.tier, &avoid_rec, cand, Duration::from_secs(20)), ChildOutcome::Violation { violation, .. } if format!("{}|{}", violation.property, violation.kind) == class)
+                    });
+                    let mut rec = record.clone();
+                    if let ChildOutcome::Violation { violation, trace_hash, trace } = exec_child(world, &args.prop, args.tier, &avoid_rec, &min_tape, Duration::from_secs(20)) {
+                        rec["tape"] = json!(min_tape);
+                        rec["violation"] = violation.to_json();
+                        rec["trace_hash"] = json!(trace_hash);
+                        rec["trace"] = json!(trace);
+                        rec["minimise_candidates"] = json!(spent);
+                    }
+                    records.push(rec);
+                    let done = (index - start) / workers + 1;
+                    agg.runs += done;
+                    agg.violating_runs += 1;
+                    restarts += 1;
+                    if restarts <= 24 && done < count {
+                        pending.push((index + workers, count - done));
+                    } else if done < count {
+                        agg.truncated = true;
+                    }
                 }
                 WorkerEnd::Died { index, how } => {
                     died.push((index, how));
